@@ -255,6 +255,9 @@ fn capture_bodies() -> Vec<(&'static str, &'static str)> {
         ("coalesce", "cap ?? x"),
         ("nested-lambda", "(z => [z, cap])(x)"),
         ("nested-lambda-shadowing-parameter", "(cap => cap)(x)"),
+        ("nested-lambda-shadowing-optional-parameter", "[((cap?) => [cap])(x), ((cap?) => [cap])(), cap]"),
+        ("nested-lambda-shadowing-rest-parameter", "[((...cap) => cap)(x, 1), cap]"),
+        ("nested-lambda-shadowing-second-parameter", "[((q, cap?) => [q, cap])(x), cap]"),
         ("do-block", "do {\n  t = cap\n  return [t, x]\n}"),
         ("do-block-shadowing-local", "do {\n  cap = x\n  return cap\n}"),
         ("do-local-shadows-captured-also-used-outside", "[do {\n  cap = x\n  return cap\n}, cap]"),
